@@ -76,7 +76,11 @@ def harness(item):
                         ent = _decode_entropy(m)
                         flat = b"".join(src.served)
                         # R1: getrandbits(k) = int.from_bytes(urandom(k/8)) for k a multiple of 8: the entropy IS the OS bytes
-                        check(ent in (flat[i:i + bits // 8] for i in range(0, max(1, len(flat) - bits // 8 + 1))),
+                        # (either byte order: getrandbits reads the OS bytes big-endian, randbytes hands them out reversed;
+                        #  both use every OS byte exactly once)
+                        nb = bits // 8
+                        wins = [flat[i:i + nb] for i in range(0, max(1, len(flat) - nb + 1))]
+                        check(ent in wins or ent[::-1] in wins,
                               f"{tag}: the entropy {ent.hex()} is not the bytes the OS source returned ({flat.hex()[:80]}...)")
                     if bad:
                         break
